@@ -61,8 +61,6 @@ func (ex *Exec) toSym(st *State, v Value, elem types.Type) *SymSliceV {
 }
 
 
-type AbstractIfaceV struct{}
-
 func (ex *Exec) mergeSym(c *Term, x, y *SymSliceV) Value {
 	r := &SymSliceV{Len: ex.ts.Ite(c, x.Len, y.Len), Elem: x.Elem}
 	for k := range x.Arrs {
@@ -206,18 +204,27 @@ func (ex *Exec) stringToSlice(st *State, sv *StrV, t *types.Slice, p token.Pos) 
 	}
 	if b, ok := t.Elem().Underlying().(*types.Basic); ok && !sv.Concrete && (b.Kind() == types.Int32 || b.Kind() == types.Uint8) {
 		// arbitrary text: arbitrary length, arbitrary elements
-		ex.assumptions["[]rune(s)/[]byte(s) of an arbitrary string is an arbitrary slice (length and contents unconstrained)"] = true
-		return ex.newSymSlice(st, "runes", t.Elem())
+		ex.assumptions["[]rune(s)/[]byte(s) of an arbitrary string is an arbitrary slice (contents unconstrained; rune count <= byte count <= 4 * rune count)"] = true
+		sl := ex.newSymSlice(st, "runes", t.Elem())
+		bl := ex.strLen(sv)
+		if b.Kind() == types.Uint8 {
+			ex.assume(st, ex.ts.Eq(sl.Len, bl))
+		} else {
+			four := ex.ts.BVBin(OpBVMul, sl.Len, ex.ts.BV(4, 64))
+			ex.assume(st, ex.ts.And(ex.ts.BVCmp(OpBVSle, sl.Len, bl), ex.ts.And(ex.ts.BVCmp(OpBVSle, bl, four), ex.ts.BVCmp(OpBVSlt, sl.Len, ex.ts.BV(1<<60, 64)))))
+		}
+		return sl
 	}
 	unsupported("conversion of symbolic string to slice at %s", ex.pos(p))
 	return nil
 }
-func (ex *Exec) strLen(s *StrV) *Term { unsupported("len of symbolic string"); return nil }
-
-func (ex *Exec) callAbstractIface(r *AbstractIfaceV, f *FuncV, args []Value, st *State, site *ast.CallExpr) Value {
-	unsupported("abstract interface call")
-	return nil
+// strLen: byte length of a symbolic string: an uninterpreted non-negative function of its identity.
+func (ex *Exec) strLen(s *StrV) *Term {
+	l := ex.ts.App("dep.strlen", BVSort(64), ex.strTerm(s))
+	ex.facts = append(ex.facts, ex.ts.BVCmp(OpBVSle, ex.ts.BV(0, 64), l))
+	return l
 }
+
 func (ex *Exec) callExternalMore(name string, f *FuncV, args []Value, st *State, site *ast.CallExpr) (Value, bool) {
 	ts := ex.ts
 	switch name {
@@ -231,6 +238,38 @@ func (ex *Exec) callExternalMore(name string, f *FuncV, args []Value, st *State,
 		return &TupleV{Vals: []Value{ts.Fresh("atoi", BVSort(64)), &OpaqueV{What: "error", IsNil: ts.Fresh("atoi.ok", BoolSort)}}}, true
 	case "strconv.Itoa":
 		return &StrV{T: ts.Fresh("itoa", IntSort)}, true
+	case "unicode.ToUpper", "unicode.ToLower":
+		r := args[0].(*Term)
+		ex.assumptions["unicode.ToUpper/ToLower: exact on ASCII, uninterpreted elsewhere"] = true
+		ascii := ts.BVCmp(OpBVUlt, r, ts.BV(128, 32))
+		var lo, hi, delta uint64 = 'a', 'z', 0xffffffe0 // -32
+		if name == "unicode.ToLower" {
+			lo, hi, delta = 'A', 'Z', 32
+		}
+		inRange := ts.And(ts.BVCmp(OpBVSle, ts.BV(lo, 32), r), ts.BVCmp(OpBVSle, r, ts.BV(hi, 32)))
+		return ts.Ite(ascii, ts.Ite(inRange, ts.BVBin(OpBVAdd, r, ts.BV(delta, 32)), r), ts.App("dep."+name, BVSort(32), r)), true
+	case "strings.IndexRune", "strings.ContainsRune":
+		sv, ok := args[0].(*StrV)
+		if !ok || !sv.Concrete {
+			return nil, false
+		}
+		r := args[1].(*Term)
+		res := ts.BV(^uint64(0), 64)
+		runes := []rune(sv.S)
+		// first match wins: build from the back
+		byteIdx := make([]int, len(runes))
+		bi := 0
+		for i, rr := range runes {
+			byteIdx[i] = bi
+			bi += len(string(rr))
+		}
+		for i := len(runes) - 1; i >= 0; i-- {
+			res = ts.Ite(ts.Eq(r, ts.BV(uint64(runes[i]), 32)), ts.BV(uint64(byteIdx[i]), 64), res)
+		}
+		if name == "strings.ContainsRune" {
+			return ts.Not(ts.Eq(res, ts.BV(^uint64(0), 64))), true
+		}
+		return res, true
 	case "unicode.IsDigit", "unicode.IsLetter":
 		// uninterpreted predicates on runes: only what the code checks afterwards matters
 		ex.assumptions["unicode.IsDigit/IsLetter are uninterpreted predicates (non-ASCII digits and letters are not assumed away)"] = true
@@ -255,7 +294,11 @@ func (ex *Exec) execLoopInv(s ast.Stmt, cond ast.Expr, body *ast.BlockStmt, post
 		}
 		if c.Kind == "use" {
 			useExprs = append(useExprs, e)
-			ex.usedContracts["lemma "+fi.Pkg.Name+"."+c.ID] = true
+			if ex.prog.Axioms[fi.Pkg.Name+"."+c.ID] {
+				ex.assumptions["AXIOM "+fi.Pkg.Name+"."+c.ID+" (assumed, see the contract file)"] = true
+			} else {
+				ex.usedContracts["lemma "+fi.Pkg.Name+"."+c.ID] = true
+			}
 			continue
 		}
 		invs = append(invs, c)
